@@ -459,14 +459,23 @@ def run_hist(who, ops):
             msgs.append(c13._snapshot(who, p))
             p.makeParser()
 
+    buf = p.msg          # the caller's receive buffer: what it extends when bytes arrive
     for op in ops:
         if op[0] == "data":
-            p.msg.extend(unh(op[1]))
+            buf.extend(unh(op[1]))
         elif op[0] == "close":
             p.close()
+        elif op[0] == "rebind":
+            # a new receive buffer (empty or already holding bytes) handed over through the public API
+            buf = bytearray(unh(op[2]))
+            if err is None:
+                if op[1] == "make":
+                    p.makeParser(msg=buf)
+                else:
+                    p.reinit(msg=buf)
         else:
             pump(); pump(); pump()
-    return {"msgs": msgs, "err": err, "errtext": errtext, "left": h(p.msg)}
+    return {"msgs": msgs, "err": err, "errtext": errtext, "left": h(buf)}
 
 
 def run_impl(case):
@@ -624,6 +633,8 @@ def coq_chunk(c):
 def _coq_op(op):
     if op[0] == "data":
         return f"(HttpMsg.OData {coq_hexbytes(op[1])})"
+    if op[0] == "rebind":
+        return f"(HttpMsg.ORebind {coq_bool(op[1] == 'make')} {coq_hexbytes(op[2])})"
     return "HttpMsg.OClose" if op[0] == "close" else "HttpMsg.OParse"
 
 
